@@ -131,6 +131,7 @@ int __real_getsockname (int, struct sockaddr *, socklen_t *);
 int __wrap_getsockname (int fd, struct sockaddr *a, socklen_t *l) { if (sysfail ("getsockname")) { errno = ENOBUFS; return -1; } if (in_lib && getsockname_fail > 0) { getsockname_fail--; errno = ENOBUFS; return -1; } return __real_getsockname (fd, a, l); }
 static pint icmp (pconstpointer a, pconstpointer b) { return (pint) ((intptr_t) a - (intptr_t) b); }
 static ppointer thr_fn (ppointer arg) { (void) arg; return NULL; }
+static void *foreign_fn (void *arg) { PUThread *me = p_uthread_current (); (void) p_uthread_current_id (); if (me != p_uthread_current ()) abort (); p_uthread_yield (); return arg; }
 static PSocketAddress *loop0 (void) { return p_socket_address_new ("127.0.0.1", 0); }
 /* returns 1 iff the creation behaved as asked (ok -> object obtained, fail -> call failed and gave nothing) */
 static int acquire (const char *k, int want_ok, Obj *o) {
@@ -239,6 +240,12 @@ static int acquire (const char *k, int want_ok, Obj *o) {
 		if (t) p_uthread_join (t);
 		o->a = t; ok = t != NULL;
 	}
+	else if (!strcmp (k, "thread_foreign")) {   /* a thread the library did not create asks for its handle: the object made for it goes away with the thread */
+		pthread_t ft[3]; int i, n = 1 + uniq % 3;
+		for (i = 0; i < n; i++) if (pthread_create (&ft[i], NULL, foreign_fn, NULL) != 0) { n = i; break; }
+		for (i = 0; i < n; i++) pthread_join (ft[i], NULL);
+		o->a = NULL; o->aux = 1; ok = n > 0;
+	}
 	else if (!strcmp (k, "thread_detached")) { PUThread *t = p_uthread_create ((PUThreadFunc) thr_fn, NULL, FALSE, NULL); o->a = t; ok = t != NULL; }
 	else if (!strcmp (k, "locks")) { o->a = p_mutex_new (); o->b = p_cond_variable_new (); o->c = p_rwlock_new (); o->aux = (long) p_spinlock_new (); ok = o->a && o->b && o->c && o->aux; }
 	else if (!strcmp (k, "loader")) { PLibraryLoader *l = p_library_loader_new (want_ok ? "/lib/x86_64-linux-gnu/libm.so.6" : "/no/such/lib.so"); pchar *e; if (l) { p_library_loader_get_symbol (l, "cos"); p_library_loader_get_symbol (l, "nope_"); e = p_library_loader_get_last_error (l); p_free (e); } o->a = l; ok = l != NULL; }
@@ -280,7 +287,7 @@ int main (int argc, char **argv) {
 	vt_open (argv[2]);
 	p_libsys_init (); p_libsys_shutdown (); p_libsys_init ();      /* the library is used after a shutdown / re-initialisation cycle */
 	/* warm-up: lazily initialised state of libc and of the library (resolver, dlopen bookkeeping, the library's own TLS key) */
-	{ Obj w; const char *ks[] = { "loader", "thread", "tcp", "dir", "sem", "shm", "ini", NULL }; int i; for (i = 0; ks[i]; i++) if (acquire (ks[i], 1, &w)) release (&w); nkeys = 0; }
+	{ Obj w; const char *ks[] = { "loader", "thread", "tcp", "dir", "sem", "shm", "ini", NULL }; int i; (void) p_uthread_current ();      /* the main thread's own handle lives until shutdown */ for (i = 0; ks[i]; i++) if (acquire (ks[i], 1, &w)) release (&w); nkeys = 0; }
 	vt.f_malloc = a_malloc; vt.f_realloc = a_realloc; vt.f_free = a_free;
 	if (!p_mem_set_vtable (&vt)) return 2;
 	tracking = 1;
